@@ -99,6 +99,12 @@ fn asset_list(r: &mut Rng, focus: Focus, depth: u32) -> Vec<tir::AssetExpr> {
         let policy = if focus == Focus::C14 && r.chance(1, 8) { E::Bytes(vec![7; 27]) } else { E::Bytes(p) };
         v.push(tir::AssetExpr { policy, asset_name: name, amount: int_expr(r, focus, depth.min(1)) });
     }
+    if focus == Focus::C02 && r.chance(1, 10) {
+        // the same token three times, each just below 2^63: the sum leaves the u64 field
+        for _ in 0..3 {
+            v.push(tir::AssetExpr { policy: E::Bytes(policy_bytes(0x22)), asset_name: E::Bytes(b"t1".to_vec()), amount: E::Number((1i128 << 63) - 1 - r.below(3) as i128) });
+        }
+    }
     if focus == Focus::C02 && r.chance(1, 4) {
         // a second lovelace entry: aggregate_values sums them
         v.push(tir::AssetExpr { policy: E::None, asset_name: E::None, amount: E::Number(amount(r, focus)) });
@@ -221,10 +227,20 @@ pub fn gen_tx(r: &mut Rng, focus: Focus) -> tir::Tx {
         redeemer: if r.chance(2, 3) { const_data(r, 1) } else { E::None },
     };
     let pols = [0x11u8, 0x22, 0x33];
-    let n_mint = match focus { Focus::C08 => r.below(3), Focus::C10 => r.below(2), _ => r.below(2) } as usize;
+    let n_mint = match focus { Focus::C08 => r.below(3), Focus::C10 => r.below(2), Focus::C02 => r.below(3), _ => r.below(2) } as usize;
     let n_burn = match focus { Focus::C08 => r.below(2), Focus::C10 => r.below(2), _ => if r.chance(1, 4) { 1 } else { 0 } } as usize;
     let mints: Vec<_> = (0..n_mint).map(|_| { let p = *r.pick(&pols); mk_mint(r, p) }).collect();
     let mut burns: Vec<_> = (0..n_burn).map(|_| { let p = if focus == Focus::C10 { 0x11 } else { *r.pick(&pols) }; mk_mint(r, p) }).collect();
+    let mut mints = mints;
+    if focus == Focus::C02 && r.chance(1, 8) {
+        // the same asset minted by two blocks, each near the top of the i64 range: the sum leaves the field
+        let big = *r.pick(&[i64::MAX as i128, (i64::MAX as i128) - 5, 1i128 << 62]);
+        let one = |amount: i128| tir::Mint {
+            amount: E::Assets(vec![tir::AssetExpr { policy: E::Bytes(policy_bytes(0x11)), asset_name: E::Bytes(b"t1".to_vec()), amount: E::Number(amount) }]),
+            redeemer: E::None,
+        };
+        mints = vec![one(big), one(big)];
+    }
     if (focus == Focus::C10 || focus == Focus::C08) && !mints.is_empty() && r.chance(1, if focus == Focus::C08 { 6 } else { 3 }) {
         // burn exactly what is minted: the mint field cancels to nothing
         burns = mints.iter().map(|m| tir::Mint { amount: m.amount.clone(), redeemer: m.redeemer.clone() }).collect();
@@ -241,6 +257,20 @@ pub fn gen_tx(r: &mut Rng, focus: Focus) -> tir::Tx {
                 ("redeemer".to_string(), if r.chance(2, 3) { const_data(r, 1) } else { E::None }),
             ]),
         });
+    }
+    if focus == Focus::C02 && r.chance(1, 10) {
+        // two withdrawals from one reward account, two treasury donations: each states an amount
+        for amt in [700_000i128, 900_000] {
+            adhoc.push(tir::AdHocDirective {
+                name: "withdrawal".into(),
+                data: HashMap::from([("credential".to_string(), E::Address(stake_addr(0x75))), ("amount".to_string(), E::Number(amt)), ("redeemer".to_string(), E::None)]),
+            });
+        }
+    }
+    if focus == Focus::C02 && r.chance(1, 10) {
+        for coin in [1_000i128, 2_500] {
+            adhoc.push(tir::AdHocDirective { name: "treasury_donation".into(), data: HashMap::from([("coin".to_string(), E::Number(coin))]) });
+        }
     }
     if r.chance(1, 6) {
         adhoc.push(tir::AdHocDirective {
@@ -514,6 +544,6 @@ pub fn run(ctx: &mut Ctx, focus: Focus) {
     ctx.meta.insert("samples".into(), serde_json::json!(samples));
     ctx.meta.insert(
         "rule".into(),
-        serde_json::json!("closed IR transactions (1-4 inputs as reference lists or UTxO sets with optional redeemers and permuted txids, 1-3 outputs with lovelace/native amounts, optional datum, 0-3 mints/burns over 3 policies, withdrawal / plutus_witness / native_witness / cardano_publish / treasury_donation directives, validity, metadata, references, collateral, signers); C02: amounts, fee, slots, keys are closed integer expressions over boundary values (0, +-1, 23/24, 2^8, 2^16, 2^31, 2^32, 2^63, 2^64, i128 extremes) and are reduced first; C08: up to 4 script inputs, equal and distinct policies, up to 2 withdrawals; C10: optional outputs, cancelling mint/burn, missing cost models, compile twice; C02, C14: a quarter of the output amounts are sums / differences / negations of asset lists with entries at the ends of the i128 range and repeated classes; C14: wrong-length hashes and txids, string references, malformed scripts and addresses, missing cost models, asset amounts that are not numbers, IntoScript coercions; plus 600 (thorough 6000) generated templates with parameters, queries and compiler ops run through apply / compiler ops / reduce in two stage orders with integer arguments from the boundary list, and 300 (thorough 3000) runs of resolve_tx on the resolver's templates with boundary quantities, boundary UTxO amounts and protocol parameters near 2^64 (panics reported directly, id 147)"),
+        serde_json::json!("closed IR transactions (1-4 inputs as reference lists or UTxO sets with optional redeemers and permuted txids, 1-3 outputs with lovelace/native amounts, optional datum, 0-3 mints/burns over 3 policies, withdrawal / plutus_witness / native_witness / cardano_publish / treasury_donation directives, validity, metadata, references, collateral, signers); C02: amounts, fee, slots, keys are closed integer expressions over boundary values (0, +-1, 23/24, 2^8, 2^16, 2^31, 2^32, 2^63, 2^64, i128 extremes) and are reduced first; C08: up to 4 script inputs, equal and distinct policies, up to 2 withdrawals; C10: optional outputs, cancelling mint/burn, missing cost models, compile twice; C02: the same asset minted by two blocks near the i64 ends, the same token three times in one output near 2^63, two withdrawals from one account, two treasury donations; C02, C14: a quarter of the output amounts are sums / differences / negations of asset lists with entries at the ends of the i128 range and repeated classes; C14: wrong-length hashes and txids, string references, malformed scripts and addresses, missing cost models, asset amounts that are not numbers, IntoScript coercions; plus 600 (thorough 6000) generated templates with parameters, queries and compiler ops run through apply / compiler ops / reduce in two stage orders with integer arguments from the boundary list, and 300 (thorough 3000) runs of resolve_tx on the resolver's templates with boundary quantities, boundary UTxO amounts and protocol parameters near 2^64 (panics reported directly, id 147)"),
     );
 }
